@@ -9,6 +9,7 @@ from mirsym.harness import *
 from mirsym.engine import NONE, SOME
 
 ID = 'C33'
+TECHNIQUE = 'symbolic execution of rustc MIR (path-forking) + z3 SMT queries per path; path witnesses validated natively through parse_git_ref, export-side violations reported on the solver verdict (to_git_ref_name is private)'
 CRATES = ['jj-lib']
 NATIVE = 'c33'
 NATIVE_CONFIRM = False     # to_git_ref_name is private: only parse_git_ref can be run natively (path witnesses are validated against it);
